@@ -119,6 +119,8 @@ func coqEvents(events []ev) ([]string, string) {
 			out = append(out, fmt.Sprintf("EInvalidate %d %d %d", e.a, e.b, e.c))
 		case "env.stop":
 			out = append(out, fmt.Sprintf("EStop %d", e.a))
+		case "env.cancel":
+			out = append(out, fmt.Sprintf("ECancel %d", e.a))
 		case "env.purge":
 			out = append(out, fmt.Sprintf("EPurge %d", e.a))
 		case "env.timer":
@@ -221,7 +223,8 @@ var clauses = map[string]map[string]bool{
 		"run-in-progress-when-stop-returned": true, "no-quiescence": true, "panic-in-harness-or-code-under-test": true},
 	"C08": {"stale-output-at-quiescence": true, "cleanup-ran-twice": true, "cleanup-not-exactly-once": true,
 		"superseded-resource-not-cleaned": true, "timer-cleanup-not-exactly-once": true,
-		"resource-released-while-current-computation-depends-on-it": true, "no-quiescence": true,
+		"resource-released-while-current-computation-depends-on-it": true,
+		"cleanup-while-current-computation-depends-on-it":           true, "no-quiescence": true,
 		"panic-in-harness-or-code-under-test": true},
 }
 
